@@ -349,6 +349,30 @@ def from_poly_attached_dims(ctx, rule):
                                     okl = False
                         if okl:
                             mine.append(nb)
+        def closure_checked(ab):
+            # `param.map_or(Ok(()), |f| InputError::expect_dim(poly.indim(), f.indim()))?` dominating the attach site
+            for l in literals(b, R, ab):
+                if not (l[0] == 'is' and set(l[2]) <= {'Continue', 'Ok'} and l[2]):
+                    continue
+                for m in walk(l[1]):
+                    if not (is_call(m, 'Option::map_or') and len(m[2]) == 3 and s(m[2][0]) == ('param', p_)):
+                        continue
+                    dflt, clo = m[2][1], m[2][2]
+                    if not (dflt[0] == 'agg' and isinstance(dflt[1], tuple) and dflt[1][1:3] == ('Result', 'Ok')) or clo[0] != 'closure':
+                        continue
+                    cbody, crets = prune.closure_ret(ctx.facts, clo)
+                    if not crets or len(crets) != 1 or not is_call(crets[0], 'InputError::expect_dim'):
+                        continue
+                    sides = [s(x) for x in crets[0][2][:2]]
+                    caps = [s(c) for c in clo[2]] if len(clo) > 2 else []
+                    poly_side = [x for x in sides if is_call(x, 'AffFuncBase::indim') and x[2][0] == ('upvar', 'poly') and ('param', 'poly') in caps]
+                    own = [x for x in sides if is_call(x, 'AffFuncBase::indim') and x[2][0][0] == 'param']
+                    if poly_side and own:
+                        return True
+            return False
+        if all(closure_checked(ab) for ab, _ in sites):
+            ctx.ok(rule, site, 'attached only after %s.map_or(Ok(()), |f| expect_dim(indim(poly), indim(f)))? succeeded' % p_, sites[0][1]['span'])
+            continue
         bad = None
         for ab, at in sites:
             guards = [l for l in literals(b, R, ab) if l[0] == 'is']
